@@ -667,6 +667,15 @@ def _const_array(ndim, v):
   return z3.Lambda(xs, v)
 
 
+class ShapeTuple(tuple):
+  """Warp's shape_t has 4 entries; entries beyond ndim read as 0."""
+
+  def __getitem__(self, i):
+    if isinstance(i, int) and i >= len(self) and i < 4:
+      return 0
+    return tuple.__getitem__(self, i)
+
+
 class ArrRef:
   def __init__(self, cell, prefix=()):
     self.cell, self.prefix = cell, tuple(prefix)
@@ -821,6 +830,8 @@ class Interp:
     saved = self.guard
     if caller is not None:
       self.guard = self.active(caller)
+    if self.depth == 0:
+      self.top_frame = fr
     self.depth += 1
     if self.depth > 40:
       raise Unsupported("call depth")
@@ -1137,9 +1148,10 @@ class Interp:
       v = [self.fresh_val(cell.dtype, "oob") for _ in range(cell.ncomp)]
     else:
       v = [cell.get(full, k) for k in range(cell.ncomp)]
-    if cell.ncomp == 1:
-      return v[0]
-    return Vec(v, cell.vshape, cell.vdt)
+    out = v[0] if cell.ncomp == 1 else Vec(v, cell.vshape, cell.vdt)
+    if self.track_access:
+      self.accesses[-1].val = out
+    return out
 
   def _dense_ok(self, cell, full):
     for i, s in zip(full, cell.shape):
@@ -1215,7 +1227,7 @@ class Interp:
       base = self.expr(fr, e.value)
       if isinstance(base, ArrRef):
         if e.attr == "shape":
-          return base.shape
+          return ShapeTuple(base.shape)
         if e.attr == "ndim":
           return base.ndim
         if e.attr == "size":
@@ -1425,8 +1437,8 @@ class Interp:
       return self.make_struct(fn._wp_struct_meta_)
     if isinstance(fn, type) and (wp.types.type_is_vector(fn) or wp.types.type_is_matrix(fn) or wp.types.type_is_quaternion(fn)):
       return self.construct(fn, args, kwargs)
-    if fn is wp.vector or fn is wp.matrix:
-      return self.construct_generic(fn, args, kwargs)
+    if fn is getattr(wp, 'vector', None) or fn is getattr(wp, 'matrix', None) or fn is wp.types.vector or fn is wp.types.matrix:
+      return self.construct_generic('vector' if fn in (getattr(wp, 'vector', None), wp.types.vector) else 'matrix', args, kwargs)
     if callable(fn) and not isinstance(fn, type):
       if any(is_sym(a) or isinstance(a, (Vec, ArrRef, StructVal)) for a in args):
         if inspect.isfunction(fn):
@@ -1521,7 +1533,7 @@ class Interp:
     return Vec(flat, shape, dt)
 
   def construct_generic(self, fn, args, kwargs):
-    if fn is wp.vector:
+    if fn == "vector":
       n = kwargs.get("length")
       dtk = scalar_kind(kwargs.get("dtype", float))
       flat = [norm_scalar(a) for a in args]
@@ -1613,7 +1625,7 @@ class Interp:
       n = kwargs.get("n", args[0] if args else None)
       return Vec([1.0 if i == j else 0.0 for i in range(n) for j in range(n)], (n, n), "f")
     if key in ("vector", "matrix"):
-      return self.construct_generic(wp.vector if key == "vector" else wp.matrix, args, kwargs)
+      return self.construct_generic(key, args, kwargs)
     raise Unsupported(f"builtin {key} with kwargs")
 
   def builtin(self, fr, key, args, e):
